@@ -1,6 +1,9 @@
+/-
+  C14 helper lemmas, part 12: the public API functions on a real header value.
+-/
 import Mhd.Proofs.AuthBasic
-import Mhd.Proofs.AuthHdrTmp
-import Mhd.Proofs.AuthInfoTmp
+import Mhd.Proofs.AuthHdr
+import Mhd.Proofs.AuthInfo
 namespace Mhd.Auth
 open Mhd.Gen.Auth
 
